@@ -43,8 +43,15 @@ ENTRIES = {
         "design_ref": "DESIGN.md §4",
     },
     "C06": {
-        "text": "Theorems: the token table stays well formed (non-zero, injective) under insert for every key sequence; distinct origins get distinct tokens; a new connection carries its checkout's origin. Every pool structure is indexed by token; the trace monitor checks on every delivery that the connection was dialled for the request's own scheme+authority (origins differing in scheme, port, host and letter case).",
-        "note": 'Trusted: Lean kernel; hand-written pool model tied to the real ConnectionPoolService by per-op differential runs (result, marker set, waiter queues, idle lists, dial and drop counters); tokio oneshot/scheduler semantics assumed; step-level theorems hold for every state, the global ownership invariant is stated in DESIGN.md as future work where not yet proved. Token counter wrap-around at usize::MAX is out of the model.',
+        "text": "Invariant theorem over all reachable states of the pool model: for every configuration and every operation sequence "
+                "(any interleaving of requests for any origins, polls, cancellations, dial results, releases, readiness and close "
+                "events, task runs, clock ticks), every connection in an idle list, in a waiter's channel, popped into a checkout, held "
+                "by a request or waiting in a WhenReady task belongs to the origin of the token it is filed under; hence whatever "
+                "happened before and happens after request r is issued for origin k, a connection r is ever given belongs to k "
+                "(C06_request_gets_own_origin). The token table stays injective under insert. The trace monitor checks on every "
+                "delivery by the real pool that the connection was dialled for the request's own scheme+authority (origins differing "
+                "only in scheme, port, host or letter case).",
+        "note": 'Trusted: Lean kernel; hand-written pool model tied to the real ConnectionPoolService by per-op differential runs (result, marker set, waiter queues, idle lists, dial and drop counters); tokio oneshot/scheduler semantics assumed. Token counter wrap-around at usize::MAX is out of the model.',
         "design_ref": "DESIGN.md §4",
     },
     "C14": {
